@@ -5,6 +5,12 @@
   object state (roots, powTwoInv, r/r_ cache).  Field operations are the GENERATED scalar operations.
   Core-only.  Tied to the code by the correspondence runs of C03/C04/C05/C19.
 
+  Every C loop is a pure fold (`iter`, `List.foldl`) whose body is a named top-level function, one per loop of the C code:
+    bflyStep / bfly (columns of one butterfly) ⊂ stageStep / stage (butterflies of one stage of one batch) ⊂ batchStages
+    (stages of one pass on one batch) ⊂ passBatch (+ transposeCopy | inverseCopy/scaleRow) ⊂ pass (batches of one pass,
+    pointer swap) ⊂ nttIters (reversePermutation, passes over `schedule`, final copy) ⊂ nttBlock / nttBlocks (column
+    blocks, scatterBlock) ⊂ ntt.  This is the shape the proofs in Lemmas/Ntt*.lean follow (DESIGN.NTT.md).
+
   Buffers are row-major `Array (BitVec 64)`; the three pointer relations of a call (destination = source, destination
   distinct, destination NULL) are explicit; `Except` carries the aborts (`assert`).
   `int` / `u_int64_t` index arithmetic is on `Nat`: exact for log2 size ≤ 30 (DESIGN.md §6).
@@ -112,27 +118,40 @@ def reversePermutation (o : Obj) (dst src : Buf) (inPlace : Bool) (size offset_c
         else if r = i ∧ nIn ≤ i then zeroRow d (i * ncols) ncols
         else d))
 
-/-- one butterfly stage `si` of batch `b` on buffer `a` -/
-def stage (o : Obj) (a : Buf) (s si b batchSize ncols rs re rb rm : Nat) : Buf :=
-  let m := 2 ^ (s + si)
-  let mdiv2 := m / 2
+/-- the two field operations of one butterfly on column `k`:
+    `t = w * a[offset1 + k]; u = a[offset2 + k]; a[offset2 + k] = t + u; a[offset1 + k] = u - t` -/
+def bflyStep (w : W) (offset1 offset2 : Nat) (k : Nat) (a : Buf) : Buf :=
+  let t := mul__rEE w (a.getD (offset1 + k) 0#64)
+  let u := a.getD (offset2 + k) 0#64
+  let a := a.setIfInBounds (offset2 + k) (add__eEE t u)
+  a.setIfInBounds (offset1 + k) (sub__eEE u t)
+
+/-- `for (k = 0; k < ncols; ++k)` of one butterfly (a pair of rows) -/
+def bfly (a : Buf) (w : W) (offset1 offset2 ncols : Nat) : Buf :=
+  iter ncols a (bflyStep w offset1 offset2)
+
+/-- the twiddle index of butterfly `i` of batch `b`: `j = b*batchSize/2 + i; j = (j & rm)*rb + (j >> (re-rs)); j %= mdiv2`
+    (`rm = 2^(re-rs) - 1`, so `j & rm = j % 2^(re-rs)`) -/
+def twIdx (s si b batchSize rs re rb : Nat) (i : Nat) : Nat :=
+  let j := b * batchSize / 2 + i
+  let j := (j % 2 ^ (re - rs)) * rb + j / 2 ^ (re - rs)
+  j % (2 ^ (s + si) / 2)
+
+/-- body of `for (i = 0; i < (batchSize >> 1); i++)` -/
+def stageStep (o : Obj) (s si b batchSize ncols rs re rb : Nat) (i : Nat) (a : Buf) : Buf :=
   let mdiv2i := 2 ^ si
   let mi := mdiv2i * 2
-  iter (batchSize / 2) a (fun i a =>
-    let ki := b * batchSize + (i / mdiv2i) * mi
-    let ji := i % mdiv2i
-    let offset1 := (ki + ji + mdiv2i) * ncols
-    let offset2 := (ki + ji) * ncols
-    let j := b * batchSize / 2 + i
-    let j := (j % 2 ^ (re - rs)) * rb + j / 2 ^ (re - rs)       -- (j & rm) * rb + (j >> (re - rs)),  rm = 2^(re-rs) - 1
-    let j := j % mdiv2
-    let w := root o (s + si) j
-    let _ := rm
-    iter ncols a (fun k a =>
-      let t := mul__rEE w (a.getD (offset1 + k) 0#64)
-      let u := a.getD (offset2 + k) 0#64
-      let a := a.setIfInBounds (offset2 + k) (add__eEE t u)
-      a.setIfInBounds (offset1 + k) (sub__eEE u t)))
+  let ki := b * batchSize + (i / mdiv2i) * mi
+  let ji := i % mdiv2i
+  let offset1 := (ki + ji + mdiv2i) * ncols
+  let offset2 := (ki + ji) * ncols
+  let w := root o (s + si) (twIdx s si b batchSize rs re rb i)
+  bfly a w offset1 offset2 ncols
+
+/-- one butterfly stage `si` of batch `b` on buffer `a` -/
+def stage (o : Obj) (a : Buf) (s si b batchSize ncols rs re rb rm : Nat) : Buf :=
+  let _ := rm
+  iter (batchSize / 2) a (stageStep o s si b batchSize ncols rs re rb)
 
 /-- the schedule of passes: list of (s, sInc) — `for (s = 1; s <= domainPow; s += maxBatchPow, ++count)` -/
 def schedule (domainPow nphase : Nat) : List (Nat × Nat) :=
@@ -149,65 +168,94 @@ def schedule (domainPow nphase : Nat) : List (Nat × Nat) :=
       go fuel (s + maxBatchPow) (count + 1) maxBatchPow ((s, sInc) :: acc)
   go (domainPow + 1) 1 1 maxBatchPow0 []
 
+/-- `for (si = 0; si < sInc; si++)`: all stages of one pass on batch `b` -/
+def batchStages (o : Obj) (a : Buf) (s sInc b batchSize ncols rs re rb rm : Nat) : Buf :=
+  iter sInc a (fun si a => stage o a s si b batchSize ncols rs re rb rm)
+
+/-- the transposing copy of batch `b`: `memcpy(&a2[(x*nBatches + b)*ncols], &a[(b*batchSize + x)*ncols], ncols)` for all x -/
+def transposeCopy (a2 a : Buf) (b batchSize nBatches ncols : Nat) : Buf :=
+  iter batchSize a2 (fun x a2 => copyRow a2 ((x * nBatches + b) * ncols) a ((b * batchSize + x) * ncols) ncols)
+
+/-- the scaling factor of the fused last inverse pass: `r_[dsty]` (extend) or `powTwoInv[domainPow]` -/
+def scaleFactor (o : Obj) (extend : Bool) (domainPow dsty : Nat) : W :=
+  if extend then
+    match o.rcache with
+    | some (_, _, r_) => r_.getD dsty 0#64
+    | none => 0#64
+  else o.powTwoInv.getD domainPow 0#64
+
+/-- `for (k = 0; k < ncols; k++) mul(a2[d0 + k], a[s0 + k], f)` -/
+def scaleRow (a2 a : Buf) (d0 s0 ncols : Nat) (f : W) : Buf :=
+  iter ncols a2 (fun k a2 => a2.setIfInBounds (d0 + k) (mul__eEE (a.getD (s0 + k) 0#64) f))
+
+/-- the reflecting, scaling copy of batch `b` in the last pass of an inverse transform -/
+def inverseCopy (o : Obj) (a2 a : Buf) (b batchSize nBatches ncols size domainPow : Nat) (extend : Bool) : Buf :=
+  iter batchSize a2 (fun x a2 =>
+    let dsty := inttIdx (x * nBatches + b) size
+    scaleRow a2 a (dsty * ncols) ((b * batchSize + x) * ncols) ncols (scaleFactor o extend domainPow dsty))
+
+/-- body of `for (b = 0; b < nBatches; b++)`; state = (a, a2) -/
+def passBatch (o : Obj) (size domainPow ncols s sInc : Nat) (lastInv extend : Bool) (b : Nat) (st : Buf × Buf) : Buf × Buf :=
+  let rs := s - 1
+  let re := domainPow - 1
+  let rb := 2 ^ rs
+  let rm := 2 ^ (re - rs) - 1
+  let batchSize := 2 ^ sInc
+  let nBatches := size / batchSize
+  let a' := batchStages o st.1 s sInc b batchSize ncols rs re rb rm
+  let a2' := if lastInv then inverseCopy o st.2 a' b batchSize nBatches ncols size domainPow extend
+             else transposeCopy st.2 a' b batchSize nBatches ncols
+  (a', a2')
+
+/-- one pass `(s, sInc)` of the `for (s = 1; s <= domainPow; ...)` loop, including the pointer swap at its end.
+    state = (a, a2, does `a` designate dst_ ?) -/
+def pass (o : Obj) (size domainPow ncols : Nat) (inverse extend : Bool) (st : Buf × Buf × Bool) (p : Nat × Nat) :
+    Buf × Buf × Bool :=
+  let s := p.1
+  let sInc := p.2
+  let nBatches := size / 2 ^ sInc
+  let lastInv := !(s + sInc ≤ domainPow) && inverse   -- !(s + maxBatchPow <= domainPow || !inverse); sInc = maxBatchPow unless last
+  let r := iter nBatches (st.1, st.2.1) (passBatch o size domainPow ncols s sInc lastInv extend)
+  (r.2, r.1, !st.2.2)
+
+/-- the clamp of `nphase` -/
+def clampPhase (nphase domainPow : Nat) : Nat :=
+  if nphase < 1 ∨ domainPow = 0 then 1 else if nphase > domainPow then domainPow else nphase
+
 /-- `NTT_iters`.  Buffers: `dstB` (when the destination is distinct from the source), `srcB`, `auxB`.
     `dstIsSrc` covers both dst == src and dst == NULL.  Returns (destination content, source content). -/
 def nttIters (o : Obj) (dstB srcB auxB : Buf) (dstIsSrc : Bool) (size offset_cols ncols ncols_all nphase : Nat)
-    (inverse extend : Bool) : Except String (Buf × Buf) := do
+    (inverse extend : Bool) : Except String (Buf × Buf) :=
   let domainPow := log2 size
-  if 2 ^ domainPow ≠ size then throw "assert((1 << domainPow) == size)"
-  let nphase := if nphase < 1 ∨ domainPow = 0 then 1 else if nphase > domainPow then domainPow else nphase
-  let isOdd := nphase % 2 = 1
+  if 2 ^ domainPow ≠ size then .error "assert((1 << domainPow) == size)" else
+  let nphase := clampPhase nphase domainPow
+  let isOdd : Bool := nphase % 2 = 1
   -- a = dst_, a2 = aux; the bit reversal writes a2 when nphase is odd and a otherwise
   let a0 := if dstIsSrc then srcB else dstB
-  let (a, a2) ←
-    if isOdd then do
-      let t ← reversePermutation o auxB srcB false size offset_cols ncols ncols_all
-      pure (t, a0)          -- after the swap: a = aux (holding the permuted data), a2 = dst_
-    else do
-      let t ← reversePermutation o a0 srcB dstIsSrc size offset_cols ncols ncols_all
-      pure (t, auxB)
-  -- `aIsDst`: does `a` currently designate dst_ ?
-  let mut a := a
-  let mut a2 := a2
-  let mut aIsDst := !isOdd
-  let passes := schedule domainPow nphase
-  for (s, sInc) in passes do
-    let rs := s - 1
-    let re := domainPow - 1
-    let rb := 2 ^ rs
-    let rm := 2 ^ (re - rs) - 1
-    let batchSize := 2 ^ sInc
-    let nBatches := size / batchSize
-    let lastInv := !(s + sInc ≤ domainPow) && inverse   -- !(s + maxBatchPow <= domainPow || !inverse); sInc = maxBatchPow unless last
-    let mut a' := a
-    let mut a2' := a2
-    for b in [0:nBatches] do
-      for si in [0:sInc] do
-        a' := stage o a' s si b batchSize ncols rs re rb rm
-      if !lastInv then
-        for x in [0:batchSize] do
-          a2' := copyRow a2' ((x * nBatches + b) * ncols) a' ((b * batchSize + x) * ncols) ncols
-      else
-        for x in [0:batchSize] do
-          let dsty := inttIdx (x * nBatches + b) size
-          let f : W :=
-            if extend then
-              match o.rcache with
-              | some (_, _, r_) => r_.getD dsty 0#64
-              | none => 0#64
-            else o.powTwoInv.getD domainPow 0#64
-          for k in [0:ncols] do
-            a2' := a2'.setIfInBounds (dsty * ncols + k) (mul__eEE (a'.getD ((b * batchSize + x) * ncols + k) 0#64) f)
-    -- swap
-    a := a2'
-    a2 := a'
-    aIsDst := !aIsDst
-  if !aIsDst then
-    if size > 1 then throw "assert(0) // should never need this copy"
-    -- parcpy(dst_, a, size * ncols)
-    let d := copyRow a2 0 a 0 (size * ncols)
-    if dstIsSrc then return (d, d) else return (d, srcB)
-  if dstIsSrc then return (a, a) else return (a, srcB)
+  -- after the (conditional) swap: (a, a2, does `a` designate dst_ ?)
+  let st0 : Except String (Buf × Buf × Bool) :=
+    if isOdd then
+      match reversePermutation o auxB srcB false size offset_cols ncols ncols_all with
+      | .error e => .error e
+      | .ok t => .ok (t, a0, false)          -- a = aux (holding the permuted data), a2 = dst_
+    else
+      match reversePermutation o a0 srcB dstIsSrc size offset_cols ncols ncols_all with
+      | .error e => .error e
+      | .ok t => .ok (t, auxB, true)
+  match st0 with
+  | .error e => .error e
+  | .ok st0 =>
+    let st := (schedule domainPow nphase).foldl (pass o size domainPow ncols inverse extend) st0
+    let a := st.1
+    let a2 := st.2.1
+    let aIsDst := st.2.2
+    if !aIsDst then
+      if size > 1 then .error "assert(0) // should never need this copy" else
+      -- parcpy(dst_, a, size * ncols)
+      let d := copyRow a2 0 a 0 (size * ncols)
+      if dstIsSrc then .ok (d, d) else .ok (d, srcB)
+    else
+      if dstIsSrc then .ok (a, a) else .ok (a, srcB)
 
 /-- where the destination of a call is -/
 inductive DstMode where
@@ -216,14 +264,31 @@ inductive DstMode where
   | null      -- dst == NULL
   deriving DecidableEq, Repr
 
-/-- `NTT(dst, src, size, ncols, buffer, nphase, nblock, inverse, extend)`; returns (dst content, src content).
-    `dstB` is the initial content of the destination buffer when it is distinct from the source. -/
-def ntt (o : Obj) (mode : DstMode) (dstB srcB : Buf) (size ncols nphase nblock : Nat) (inverse extend : Bool) :
-    Except String (Buf × Buf) := do
-  if ncols = 0 ∨ size = 0 then
-    return (if mode = .other then dstB else srcB, srcB)
-  let dstIsSrc := mode ≠ .other        -- after `if (dst == NULL) dst = src;`
-  let nblock := if nblock < 1 then 1 else if nblock > ncols then ncols else nblock
+/-- `memcpy(&dst[ie * ncols + offset_cols], &dst_[ie * aux_ncols], aux_ncols)` for all rows -/
+def scatterBlock (dst d : Buf) (size ncols offset_cols aux_ncols : Nat) : Buf :=
+  iter size dst (fun ie dst => copyRow dst (ie * ncols + offset_cols) d (ie * aux_ncols) aux_ncols)
+
+/-- body of `for (ib = 0; ib < nblock; ++ib)` when `nblock > 1`; state = (dst, src, offset_cols) or the abort -/
+def nttBlock (o : Obj) (aux : Buf) (dstIsSrc : Bool) (size ncols nphase ncols_block ncols_res ncols_alloc : Nat)
+    (inverse extend : Bool) (ib : Nat) (st : Except String (Buf × Buf × Nat)) : Except String (Buf × Buf × Nat) :=
+  match st with
+  | .error e => .error e
+  | .ok (dst, src, offset_cols) =>
+    let aux_ncols := ncols_block + (if ib < ncols_res then 1 else 0)
+    let tmpDst : Buf := Array.replicate (size * ncols_alloc) 0#64
+    match nttIters o tmpDst src aux false size offset_cols aux_ncols ncols nphase inverse extend with
+    | .error e => .error e
+    | .ok (d, _) =>
+      let dst := scatterBlock dst d size ncols offset_cols aux_ncols
+      .ok (dst, if dstIsSrc then dst else src, offset_cols + aux_ncols)
+
+/-- the clamp of `nblock` -/
+def clampBlock (nblock ncols : Nat) : Nat :=
+  if nblock < 1 then 1 else if nblock > ncols then ncols else nblock
+
+/-- `NTT` after the early return, the clamp of `nblock` and `if (dst == NULL) dst = src;` -/
+def nttBlocks (o : Obj) (dstIsSrc : Bool) (dstB srcB : Buf) (size ncols nphase nblock : Nat) (inverse extend : Bool) :
+    Except String (Buf × Buf) :=
   let ncols_block := ncols / nblock
   let ncols_res := ncols % nblock
   let ncols_alloc := ncols_block + (if ncols_res > 0 then 1 else 0)
@@ -232,18 +297,21 @@ def ntt (o : Obj) (mode : DstMode) (dstB srcB : Buf) (size ncols nphase nblock :
     nttIters o dstB srcB aux dstIsSrc size 0 ncols ncols nphase inverse extend
   else
     -- temporary destination dst_, results scattered column block by column block into dst
-    let mut dst := if dstIsSrc then srcB else dstB
-    let mut src := srcB
-    let mut offset_cols := 0
-    for ib in [0:nblock] do
-      let aux_ncols := ncols_block + (if ib < ncols_res then 1 else 0)
-      let tmpDst : Buf := Array.replicate (size * ncols_alloc) 0#64
-      let (d, _) ← nttIters o tmpDst src aux false size offset_cols aux_ncols ncols nphase inverse extend
-      for ie in [0:size] do
-        dst := copyRow dst (ie * ncols + offset_cols) d (ie * aux_ncols) aux_ncols
-      if dstIsSrc then src := dst
-      offset_cols := offset_cols + aux_ncols
-    return (dst, src)
+    let dst0 := if dstIsSrc then srcB else dstB
+    match iter nblock (.ok (dst0, srcB, 0))
+        (nttBlock o aux dstIsSrc size ncols nphase ncols_block ncols_res ncols_alloc inverse extend) with
+    | .error e => .error e
+    | .ok (dst, src, _) => .ok (dst, src)
+
+/-- `NTT(dst, src, size, ncols, buffer, nphase, nblock, inverse, extend)`; returns (dst content, src content).
+    `dstB` is the initial content of the destination buffer when it is distinct from the source. -/
+def ntt (o : Obj) (mode : DstMode) (dstB srcB : Buf) (size ncols nphase nblock : Nat) (inverse extend : Bool) :
+    Except String (Buf × Buf) :=
+  if ncols = 0 ∨ size = 0 then
+    .ok (if mode = .other then dstB else srcB, srcB)
+  else
+    -- dstIsSrc: after `if (dst == NULL) dst = src;`
+    nttBlocks o (mode ≠ .other) dstB srcB size ncols nphase (clampBlock nblock ncols) inverse extend
 
 /-- `INTT(dst, src, size, ncols, buffer, nphase, nblock, extend)` -/
 def intt (o : Obj) (mode : DstMode) (dstB srcB : Buf) (size ncols nphase nblock : Nat) (extend : Bool) :
@@ -251,17 +319,25 @@ def intt (o : Obj) (mode : DstMode) (dstB srcB : Buf) (size ncols nphase nblock 
   if ncols = 0 ∨ size = 0 then .ok (if mode = .other then dstB else srcB, srcB)
   else ntt o (if mode = .null then .same else mode) dstB srcB size ncols nphase nblock true extend
 
+/-- `if (r == NULL || r_N != N) { ...; computeR(N); }` -/
+def refreshCache (o : Obj) (n : Nat) : Obj :=
+  match o.rcache with
+  | some (n0, _, _) => if n0 = n then o else { o with rcache := some (computeR o n) }
+  | none => { o with rcache := some (computeR o n) }
+
 /-- `extendPol(output, input, N_Extended, N, ncols, buffer, nphase, nblock)`; the object's r cache is updated.
     `outB`: initial content of `output` (N_Extended rows) when distinct from `input`; when `same`, `inB` has N_Extended rows. -/
 def extendPol (o : Obj) (same : Bool) (outB inB : Buf) (nExt n ncols nphase nblock : Nat) :
-    Except String (Obj × Buf) := do
-  let some oext := mkObj nExt (nExt / n) | throw "range_error"
-  let o := match o.rcache with
-    | some (n0, _, _) => if n0 = n then o else { o with rcache := some (computeR o n) }
-    | none => { o with rcache := some (computeR o n) }
-  let (out1, _) ← intt o (if same then .same else .other) outB inB n ncols nphase nblock true
-  let (out2, _) ← ntt oext .same out2Dummy out1 nExt ncols nphase nblock false false
-  return (o, out2)
-where out2Dummy : Buf := #[]
+    Except String (Obj × Buf) :=
+  match mkObj nExt (nExt / n) with
+  | none => .error "range_error"
+  | some oext =>
+    let o := refreshCache o n
+    match intt o (if same then .same else .other) outB inB n ncols nphase nblock true with
+    | .error e => .error e
+    | .ok (out1, _) =>
+      match ntt oext .same #[] out1 nExt ncols nphase nblock false false with
+      | .error e => .error e
+      | .ok (out2, _) => .ok (o, out2)
 
 end GoldilocksVerif.Model.Ntt
